@@ -27,9 +27,9 @@ Definition tr_WriteHead (ty : Z) (tag : Z) (out : list N) : ctl (list N) (list N
         Return (out, err__)
       else let data_1 := (Z.lor 240 ty) in
         let out := out ++ (go_emit_u8 data_1) in let err := false in
-        bindc (if (negb (Bool.eqb err false))
-          then Return (out, err)
-          else Next out)
+        bindc (if (Bool.eqb err false)
+          then Next out
+          else Return (out, err))
         (fun out : (list N) =>
         let out := out ++ (go_emit_u8 tag) in let err__ := false in
         Return (out, err__)))
@@ -43,20 +43,20 @@ Definition tr_WriteInt8 (data : Z) (tag : Z) (out : list N) : ctl (list N) (list
   let err : bool := false in
     bindc (if (data =? 0)
       then go_call (tr_WriteHead k_codec_ZeroTag tag out) (fun r__ => let '(out, err) := r__ in
-        bindc (if (negb (Bool.eqb err false))
-          then Return (out, err)
-          else Next out)
+        bindc (if (Bool.eqb err false)
+          then Next out
+          else Return (out, err))
         (fun out : (list N) =>
         Next (out, err)))
       else go_call (tr_WriteHead k_codec_BYTE tag out) (fun r__ => let '(out, err) := r__ in
-        bindc (if (negb (Bool.eqb err false))
-          then Return (out, err)
-          else Next out)
+        bindc (if (Bool.eqb err false)
+          then Next out
+          else Return (out, err))
         (fun out : (list N) =>
         let out := out ++ (go_emit_u8 (wrapU 8 data)) in let err := false in
-        bindc (if (negb (Bool.eqb err false))
-          then Return (out, err)
-          else Next out)
+        bindc (if (Bool.eqb err false)
+          then Next out
+          else Return (out, err))
         (fun out : (list N) =>
         Next (out, err)))))
     (fun st : (list N) * bool => let '(out, err) := st in
@@ -68,22 +68,22 @@ Definition k_codec_SHORT : Z := 1.
 (* tars/protocol/codec/codec.go: func Buffer.WriteInt16 *)
 Definition tr_WriteInt16 (data : Z) (tag : Z) (out : list N) : ctl (list N) (list N * bool) :=
   let err : bool := false in
-    bindc (if (if (k_math_MinInt8 <=? data) then (data <=? k_math_MaxInt8) else false)
+    bindc (if (if (data <=? k_math_MaxInt8) then (k_math_MinInt8 <=? data) else false)
       then go_call (tr_WriteInt8 (wrapS 8 data) tag out) (fun r__ => let '(out, err) := r__ in
-        bindc (if (negb (Bool.eqb err false))
-          then Return (out, err)
-          else Next out)
+        bindc (if (Bool.eqb err false)
+          then Next out
+          else Return (out, err))
         (fun out : (list N) =>
         Next (out, err)))
       else go_call (tr_WriteHead k_codec_SHORT tag out) (fun r__ => let '(out, err) := r__ in
-        bindc (if (negb (Bool.eqb err false))
-          then Return (out, err)
-          else Next out)
+        bindc (if (Bool.eqb err false)
+          then Next out
+          else Return (out, err))
         (fun out : (list N) =>
         let out := out ++ (go_emit_u16 (wrapU 16 data)) in let err := false in
-        bindc (if (negb (Bool.eqb err false))
-          then Return (out, err)
-          else Next out)
+        bindc (if (Bool.eqb err false)
+          then Next out
+          else Return (out, err))
         (fun out : (list N) =>
         Next (out, err)))))
     (fun st : (list N) * bool => let '(out, err) := st in
@@ -95,22 +95,22 @@ Definition k_codec_INT : Z := 2.
 (* tars/protocol/codec/codec.go: func Buffer.WriteInt32 *)
 Definition tr_WriteInt32 (data : Z) (tag : Z) (out : list N) : ctl (list N) (list N * bool) :=
   let err : bool := false in
-    bindc (if (if (k_math_MinInt16 <=? data) then (data <=? k_math_MaxInt16) else false)
+    bindc (if (if (data <=? k_math_MaxInt16) then (k_math_MinInt16 <=? data) else false)
       then go_call (tr_WriteInt16 (wrapS 16 data) tag out) (fun r__ => let '(out, err) := r__ in
-        bindc (if (negb (Bool.eqb err false))
-          then Return (out, err)
-          else Next out)
+        bindc (if (Bool.eqb err false)
+          then Next out
+          else Return (out, err))
         (fun out : (list N) =>
         Next (out, err)))
       else go_call (tr_WriteHead k_codec_INT tag out) (fun r__ => let '(out, err) := r__ in
-        bindc (if (negb (Bool.eqb err false))
-          then Return (out, err)
-          else Next out)
+        bindc (if (Bool.eqb err false)
+          then Next out
+          else Return (out, err))
         (fun out : (list N) =>
         let out := out ++ (go_emit_u32 (wrapU 32 data)) in let err := false in
-        bindc (if (negb (Bool.eqb err false))
-          then Return (out, err)
-          else Next out)
+        bindc (if (Bool.eqb err false)
+          then Next out
+          else Return (out, err))
         (fun out : (list N) =>
         Next (out, err)))))
     (fun st : (list N) * bool => let '(out, err) := st in
@@ -122,22 +122,22 @@ Definition k_codec_LONG : Z := 3.
 (* tars/protocol/codec/codec.go: func Buffer.WriteInt64 *)
 Definition tr_WriteInt64 (data : Z) (tag : Z) (out : list N) : ctl (list N) (list N * bool) :=
   let err : bool := false in
-    bindc (if (if (k_math_MinInt32 <=? data) then (data <=? k_math_MaxInt32) else false)
+    bindc (if (if (data <=? k_math_MaxInt32) then (k_math_MinInt32 <=? data) else false)
       then go_call (tr_WriteInt32 (wrapS 32 data) tag out) (fun r__ => let '(out, err) := r__ in
-        bindc (if (negb (Bool.eqb err false))
-          then Return (out, err)
-          else Next out)
+        bindc (if (Bool.eqb err false)
+          then Next out
+          else Return (out, err))
         (fun out : (list N) =>
         Next (out, err)))
       else go_call (tr_WriteHead k_codec_LONG tag out) (fun r__ => let '(out, err) := r__ in
-        bindc (if (negb (Bool.eqb err false))
-          then Return (out, err)
-          else Next out)
+        bindc (if (Bool.eqb err false)
+          then Next out
+          else Return (out, err))
         (fun out : (list N) =>
         let out := out ++ (go_emit_u64 (wrapU 64 data)) in let err := false in
-        bindc (if (negb (Bool.eqb err false))
-          then Return (out, err)
-          else Next out)
+        bindc (if (Bool.eqb err false)
+          then Next out
+          else Return (out, err))
         (fun out : (list N) =>
         Next (out, err)))))
     (fun st : (list N) * bool => let '(out, err) := st in
@@ -176,32 +176,32 @@ Definition tr_WriteString (data : (list N)) (tag : Z) (out : list N) : ctl (list
   let err : bool := false in
     bindc (if (255 <? (go_len data))
       then go_call (tr_WriteHead k_codec_STRING4 tag out) (fun r__ => let '(out, err) := r__ in
-        bindc (if (negb (Bool.eqb err false))
-          then Return (out, err)
-          else Next out)
+        bindc (if (Bool.eqb err false)
+          then Next out
+          else Return (out, err))
         (fun out : (list N) =>
         let out := out ++ (go_emit_u32 (wrapU 32 (go_len data))) in let err := false in
-        bindc (if (negb (Bool.eqb err false))
-          then Return (out, err)
-          else Next out)
+        bindc (if (Bool.eqb err false)
+          then Next out
+          else Return (out, err))
         (fun out : (list N) =>
         Next (out, err))))
       else go_call (tr_WriteHead k_codec_STRING1 tag out) (fun r__ => let '(out, err) := r__ in
-        bindc (if (negb (Bool.eqb err false))
-          then Return (out, err)
-          else Next out)
+        bindc (if (Bool.eqb err false)
+          then Next out
+          else Return (out, err))
         (fun out : (list N) =>
         let out := out ++ (go_emit_u8 (wrapU 8 (go_len data))) in let err := false in
-        bindc (if (negb (Bool.eqb err false))
-          then Return (out, err)
-          else Next out)
+        bindc (if (Bool.eqb err false)
+          then Next out
+          else Return (out, err))
         (fun out : (list N) =>
         Next (out, err)))))
     (fun st : (list N) * bool => let '(out, err) := st in
     let out := out ++ (go_emit_bytes data) in let err := false in
-    bindc (if (negb (Bool.eqb err false))
-      then Return (out, err)
-      else Next out)
+    bindc (if (Bool.eqb err false)
+      then Next out
+      else Return (out, err))
     (fun out : (list N) =>
     Return (out, false))).
 
@@ -210,9 +210,9 @@ Definition k_codec_FLOAT : Z := 4.
 Definition tr_WriteFloat32 (data : Z) (tag : Z) (out : list N) : ctl (list N) (list N * bool) :=
   let err : bool := false in
     go_call (tr_WriteHead k_codec_FLOAT tag out) (fun r__ => let '(out, err) := r__ in
-    bindc (if (negb (Bool.eqb err false))
-      then Return (out, err)
-      else Next out)
+    bindc (if (Bool.eqb err false)
+      then Next out
+      else Return (out, err))
     (fun out : (list N) =>
     let out := out ++ (go_emit_u32 data) in let err := false in
     Return (out, err))).
@@ -222,12 +222,17 @@ Definition k_codec_DOUBLE : Z := 5.
 Definition tr_WriteFloat64 (data : Z) (tag : Z) (out : list N) : ctl (list N) (list N * bool) :=
   let err : bool := false in
     go_call (tr_WriteHead k_codec_DOUBLE tag out) (fun r__ => let '(out, err) := r__ in
-    bindc (if (negb (Bool.eqb err false))
-      then Return (out, err)
-      else Next out)
+    bindc (if (Bool.eqb err false)
+      then Next out
+      else Return (out, err))
     (fun out : (list N) =>
     let out := out ++ (go_emit_u64 data) in let err := false in
     Return (out, err))).
+
+(* tars/protocol/codec/codec.go: func Buffer.WriteBytes *)
+Definition tr_WriteBytes (data : (list N)) (out : list N) : ctl (list N) (list N * bool) :=
+  let out := out ++ (go_emit_bytes data) in let err := false in
+    Return (out, err).
 
 Definition k_endpoint_EStaticWeight : Z := 1.
 Definition k_selector_minStaticWeightLimit : Z := 10.
@@ -253,9 +258,8 @@ Definition tr_BSWL_range (endpoints : (list go_endpoint_Endpoint)) : ctl (Z * Z 
   let maxRange : Z := 0 in let totalWeight : Z := 0 in
     let '(minWeight, maxWeight) := (k_math_MaxInt32, k_math_MinInt32) in
     bindc (go_range endpoints (fun (_ : Z) (node : go_endpoint_Endpoint) => fun st : Z * Z => let '(minWeight, maxWeight) := st in
-      if (negb ((go_endpoint_Endpoint_WeightType node) =? k_endpoint_EStaticWeight))
-      then Return (@nil Z)
-      else let weight := (go_endpoint_Endpoint_Weight node) in
+      if ((go_endpoint_Endpoint_WeightType node) =? k_endpoint_EStaticWeight)
+      then let weight := (go_endpoint_Endpoint_Weight node) in
       bindc (if (maxWeight <? weight)
         then let maxWeight := weight in
           Next maxWeight
@@ -266,7 +270,8 @@ Definition tr_BSWL_range (endpoints : (list go_endpoint_Endpoint)) : ctl (Z * Z 
           Next minWeight
         else Next minWeight)
       (fun minWeight : Z =>
-      Next (minWeight, maxWeight)))) (minWeight, maxWeight))
+      Next (minWeight, maxWeight)))
+      else Return (@nil Z)) (minWeight, maxWeight))
     (fun st : Z * Z => let '(minWeight, maxWeight) := st in
     if (maxWeight <=? 0)
     then Return (@nil Z)
@@ -294,17 +299,17 @@ Definition tr_readHead (rd : go_reader) : ctl unit (go_reader * Z * Z * bool) :=
     let tag : Z := 0 in
     let err : bool := false in
     let '(rd, data, err) := (go_rd_readbyte rd) in
-    bindc (if (negb (Bool.eqb err false))
-      then Return (rd, ty, tag, err)
-      else Next rd)
+    bindc (if (Bool.eqb err false)
+      then Next rd
+      else Return (rd, ty, tag, err))
     (fun rd : go_reader =>
     let ty := (Z.land data 15) in
     let tag := (Z.shiftr (Z.land data 240) 4) in
     bindc (if (tag =? 15)
       then let '(rd, data, err) := (go_rd_readbyte rd) in
-        bindc (if (negb (Bool.eqb err false))
-          then Return (rd, ty, tag, err)
-          else Next rd)
+        bindc (if (Bool.eqb err false)
+          then Next rd
+          else Return (rd, ty, tag, err))
         (fun rd : go_reader =>
         let tag := data in
         Next (rd, tag, err, data))
@@ -360,15 +365,15 @@ Fixpoint tr_skipFieldMap (fuel : nat) (rd : go_reader) {struct fuel} : ctl unit 
   match fuel with O => Panic | S fuel =>
   let length : Z := 0 in
     go_call (tr_ReadInt32 fuel length 0 true rd) (fun r__ => let '(rd, length, err) := r__ in
-    bindc (if (negb (Bool.eqb err false))
-      then Return (rd, err)
-      else Next rd)
+    bindc (if (Bool.eqb err false)
+      then Next rd
+      else Return (rd, err))
     (fun rd : go_reader =>
     bindc (go_count 0 (wrapS 32 (length * 2)) (fun (i : Z) => fun rd : go_reader =>
       go_call (tr_readHead rd) (fun r__ => let '(rd, tyCur, _, err_1) := r__ in
-      bindc (if (negb (Bool.eqb err_1 false))
-        then Return (rd, err_1)
-        else Next rd)
+      bindc (if (Bool.eqb err_1 false)
+        then Next rd
+        else Return (rd, err_1))
       (fun rd : go_reader =>
       go_call (tr_skipField fuel tyCur rd) (fun r__ => let '(rd, _) := r__ in
       Next rd)))) rd)
@@ -380,15 +385,15 @@ with tr_skipFieldList (fuel : nat) (rd : go_reader) {struct fuel} : ctl unit (go
   match fuel with O => Panic | S fuel =>
   let length : Z := 0 in
     go_call (tr_ReadInt32 fuel length 0 true rd) (fun r__ => let '(rd, length, err) := r__ in
-    bindc (if (negb (Bool.eqb err false))
-      then Return (rd, err)
-      else Next rd)
+    bindc (if (Bool.eqb err false)
+      then Next rd
+      else Return (rd, err))
     (fun rd : go_reader =>
     bindc (go_count 0 length (fun (i : Z) => fun rd : go_reader =>
       go_call (tr_readHead rd) (fun r__ => let '(rd, tyCur, _, err_1) := r__ in
-      bindc (if (negb (Bool.eqb err_1 false))
-        then Return (rd, err_1)
-        else Next rd)
+      bindc (if (Bool.eqb err_1 false)
+        then Next rd
+        else Return (rd, err_1))
       (fun rd : go_reader =>
       go_call (tr_skipField fuel tyCur rd) (fun r__ => let '(rd, _) := r__ in
       Next rd)))) rd)
@@ -399,19 +404,19 @@ with tr_skipFieldList (fuel : nat) (rd : go_reader) {struct fuel} : ctl unit (go
 with tr_skipFieldSimpleList (fuel : nat) (rd : go_reader) {struct fuel} : ctl unit (go_reader * bool) :=
   match fuel with O => Panic | S fuel =>
   go_call (tr_readHead rd) (fun r__ => let '(rd, tyCur, _, err) := r__ in
-    bindc (if (negb (tyCur =? k_codec_BYTE))
-      then Return (rd, true)
-      else Next rd)
+    bindc (if (tyCur =? k_codec_BYTE)
+      then Next rd
+      else Return (rd, true))
     (fun rd : go_reader =>
-    bindc (if (negb (Bool.eqb err false))
-      then Return (rd, err)
-      else Next rd)
+    bindc (if (Bool.eqb err false)
+      then Next rd
+      else Return (rd, err))
     (fun rd : go_reader =>
     let length : Z := 0 in
     go_call (tr_ReadInt32 fuel length 0 true rd) (fun r__ => let '(rd, length, err) := r__ in
-    bindc (if (negb (Bool.eqb err false))
-      then Return (rd, err)
-      else Next rd)
+    bindc (if (Bool.eqb err false)
+      then Next rd
+      else Return (rd, err))
     (fun rd : go_reader =>
     go_call (tr_Skip length rd) (fun rd =>
     Return (rd, false)))))))
@@ -433,43 +438,43 @@ with tr_skipField (fuel : nat) (ty : Z) (rd : go_reader) {struct fuel} : ctl uni
       else (if (tag__1 =? 5) then go_call (tr_Skip 8 rd) (fun rd =>
         Next rd)
       else (if (tag__1 =? 6) then let '(rd, data, err) := (go_rd_readbyte rd) in
-        bindc (if (negb (Bool.eqb err false))
-          then Return (rd, err)
-          else Next rd)
+        bindc (if (Bool.eqb err false)
+          then Next rd
+          else Return (rd, err))
         (fun rd : go_reader =>
         let l := data in
         go_call (tr_Skip l rd) (fun rd =>
         Next rd))
       else (if (tag__1 =? 7) then let l_1 : Z := 0 in
         let '(rd, l_1, err_1) := (go_rd_u32 rd) in
-        bindc (if (negb (Bool.eqb err_1 false))
-          then Return (rd, err_1)
-          else Next rd)
+        bindc (if (Bool.eqb err_1 false)
+          then Next rd
+          else Return (rd, err_1))
         (fun rd : go_reader =>
         go_call (tr_Skip l_1 rd) (fun rd =>
         Next rd))
       else (if (tag__1 =? 8) then go_call (tr_skipNested (tr_skipFieldMap fuel) rd) (fun r__ => let '(rd, err_2) := r__ in
-        bindc (if (negb (Bool.eqb err_2 false))
-          then Return (rd, err_2)
-          else Next rd)
+        bindc (if (Bool.eqb err_2 false)
+          then Next rd
+          else Return (rd, err_2))
         (fun rd : go_reader =>
         Next rd))
       else (if (tag__1 =? 9) then go_call (tr_skipNested (tr_skipFieldList fuel) rd) (fun r__ => let '(rd, err_3) := r__ in
-        bindc (if (negb (Bool.eqb err_3 false))
-          then Return (rd, err_3)
-          else Next rd)
+        bindc (if (Bool.eqb err_3 false)
+          then Next rd
+          else Return (rd, err_3))
         (fun rd : go_reader =>
         Next rd))
       else (if (tag__1 =? 13) then go_call (tr_skipFieldSimpleList fuel rd) (fun r__ => let '(rd, err_4) := r__ in
-        bindc (if (negb (Bool.eqb err_4 false))
-          then Return (rd, err_4)
-          else Next rd)
+        bindc (if (Bool.eqb err_4 false)
+          then Next rd
+          else Return (rd, err_4))
         (fun rd : go_reader =>
         Next rd))
       else (if (tag__1 =? 10) then go_call (tr_skipNested (tr_SkipToStructEnd fuel) rd) (fun r__ => let '(rd, err_5) := r__ in
-        bindc (if (negb (Bool.eqb err_5 false))
-          then Return (rd, err_5)
-          else Next rd)
+        bindc (if (Bool.eqb err_5 false)
+          then Next rd
+          else Return (rd, err_5))
         (fun rd : go_reader =>
         Next rd))
       else (if (tag__1 =? 11) then Next rd
@@ -482,14 +487,14 @@ with tr_skipField (fuel : nat) (ty : Z) (rd : go_reader) {struct fuel} : ctl uni
 with tr_SkipToStructEnd (fuel : nat) (rd : go_reader) {struct fuel} : ctl unit (go_reader * bool) :=
   match fuel with O => Panic | S fuel =>
   go_iter (go_call (tr_readHead rd) (fun r__ => let '(rd, ty, _, err) := r__ in
-      bindc (if (negb (Bool.eqb err false))
-        then Return (inr (rd, err))
-        else Next rd)
+      bindc (if (Bool.eqb err false)
+        then Next rd
+        else Return (inr (rd, err)))
       (fun rd : go_reader =>
       go_call (tr_skipField fuel ty rd) (fun r__ => let '(rd, err) := r__ in
-      bindc (if (negb (Bool.eqb err false))
-        then Return (inr (rd, err))
-        else Next rd)
+      bindc (if (Bool.eqb err false)
+        then Next rd
+        else Return (inr (rd, err)))
       (fun rd : go_reader =>
       bindc (if (ty =? k_codec_StructEnd)
         then Return (inl rd)
@@ -504,15 +509,15 @@ with tr_SkipToStructEnd (fuel : nat) (rd : go_reader) {struct fuel} : ctl unit (
 with tr_SkipToNoCheck (fuel : nat) (tag : Z) (require : bool) (rd : go_reader) {struct fuel} : ctl unit (go_reader * bool * Z * bool) :=
   match fuel with O => Panic | S fuel =>
   go_iter (go_call (tr_readHead rd) (fun r__ => let '(rd, tyCur, tagCur, err) := r__ in
-      bindc (if (negb (Bool.eqb err false))
-        then bindc (if require
+      bindc (if (Bool.eqb err false)
+        then Next rd
+        else bindc (if require
             then Return (inr (rd, false, tyCur, true))
             else Next rd)
           (fun rd : go_reader =>
-          Return (inr (rd, false, tyCur, false)))
-        else Next rd)
+          Return (inr (rd, false, tyCur, false))))
       (fun rd : go_reader =>
-      bindc (if (if (tyCur =? k_codec_StructEnd) then true else (tag <? tagCur))
+      bindc (if (if (tag <? tagCur) then true else (tyCur =? k_codec_StructEnd))
         then bindc (if require
             then Return (inr (rd, false, tyCur, true))
             else Next rd)
@@ -526,9 +531,9 @@ with tr_SkipToNoCheck (fuel : nat) (tag : Z) (require : bool) (rd : go_reader) {
         else Next rd)
       (fun rd : go_reader =>
       go_call (tr_skipField fuel tyCur rd) (fun r__ => let '(rd, err) := r__ in
-      bindc (if (negb (Bool.eqb err false))
-        then Return (inr (rd, false, tyCur, err))
-        else Next rd)
+      bindc (if (Bool.eqb err false)
+        then Next rd
+        else Return (inr (rd, false, tyCur, err)))
       (fun rd : go_reader =>
       Next rd)))))))
     (fun rd : go_reader =>
@@ -539,13 +544,13 @@ with tr_SkipToNoCheck (fuel : nat) (tag : Z) (require : bool) (rd : go_reader) {
 with tr_ReadInt32 (fuel : nat) (data : Z) (tag : Z) (require : bool) (rd : go_reader) {struct fuel} : ctl unit (go_reader * Z * bool) :=
   match fuel with O => Panic | S fuel =>
   go_call (tr_SkipToNoCheck fuel tag require rd) (fun r__ => let '(rd, have, ty, err) := r__ in
-    bindc (if (negb (Bool.eqb err false))
-      then Return (rd, data, err)
-      else Next rd)
+    bindc (if (Bool.eqb err false)
+      then Next rd
+      else Return (rd, data, err))
     (fun rd : go_reader =>
-    bindc (if (negb have)
-      then Return (rd, data, false)
-      else Next rd)
+    bindc (if have
+      then Next rd
+      else Return (rd, data, false))
     (fun rd : go_reader =>
     let tag__1 := ty in
     bindc (if (tag__1 =? 12) then let data := 0 in
@@ -564,10 +569,10 @@ with tr_ReadInt32 (fuel : nat) (data : Z) (tag : Z) (require : bool) (rd : go_re
         Next (rd, data, err)
       else (Return (rd, data, true))))))
     (fun st : go_reader * Z * bool => let '(rd, data, err) := st in
-    bindc (if (negb (Bool.eqb err false))
-      then let err := true in
-        Next (rd, err)
-      else Next (rd, err))
+    bindc (if (Bool.eqb err false)
+      then Next (rd, err)
+      else let err := true in
+        Next (rd, err))
     (fun st : go_reader * bool => let '(rd, err) := st in
     Return (rd, data, err))))))
   end.
@@ -575,11 +580,11 @@ with tr_ReadInt32 (fuel : nat) (data : Z) (tag : Z) (require : bool) (rd : go_re
 (* tars/protocol/codec/codec.go: func Reader.SkipTo *)
 Definition tr_SkipTo (fuel : nat) (ty : Z) (tag : Z) (require : bool) (rd : go_reader) : ctl unit (go_reader * bool * bool) :=
   go_call (tr_SkipToNoCheck fuel tag require rd) (fun r__ => let '(rd, have, tyCur, err) := r__ in
-    bindc (if (negb (Bool.eqb err false))
-      then Return (rd, false, err)
-      else Next rd)
+    bindc (if (Bool.eqb err false)
+      then Next rd
+      else Return (rd, false, err))
     (fun rd : go_reader =>
-    bindc (if (if have then (negb (ty =? tyCur)) else false)
+    bindc (if (if (negb (ty =? tyCur)) then have else false)
       then Return (rd, false, true)
       else Next rd)
     (fun rd : go_reader =>
@@ -588,13 +593,13 @@ Definition tr_SkipTo (fuel : nat) (ty : Z) (tag : Z) (require : bool) (rd : go_r
 (* tars/protocol/codec/codec.go: func Reader.ReadInt8 *)
 Definition tr_ReadInt8 (fuel : nat) (data : Z) (tag : Z) (require : bool) (rd : go_reader) : ctl unit (go_reader * Z * bool) :=
   go_call (tr_SkipToNoCheck fuel tag require rd) (fun r__ => let '(rd, have, ty, err) := r__ in
-    bindc (if (negb (Bool.eqb err false))
-      then Return (rd, data, err)
-      else Next rd)
+    bindc (if (Bool.eqb err false)
+      then Next rd
+      else Return (rd, data, err))
     (fun rd : go_reader =>
-    bindc (if (negb have)
-      then Return (rd, data, false)
-      else Next rd)
+    bindc (if have
+      then Next rd
+      else Return (rd, data, false))
     (fun rd : go_reader =>
     let tag__1 := ty in
     bindc (if (tag__1 =? 12) then let data := 0 in
@@ -605,23 +610,23 @@ Definition tr_ReadInt8 (fuel : nat) (data : Z) (tag : Z) (require : bool) (rd : 
         Next (rd, data, err)
       else (Return (rd, data, true))))
     (fun st : go_reader * Z * bool => let '(rd, data, err) := st in
-    bindc (if (negb (Bool.eqb err false))
-      then let err := true in
-        Next (rd, err)
-      else Next (rd, err))
+    bindc (if (Bool.eqb err false)
+      then Next (rd, err)
+      else let err := true in
+        Next (rd, err))
     (fun st : go_reader * bool => let '(rd, err) := st in
     Return (rd, data, err)))))).
 
 (* tars/protocol/codec/codec.go: func Reader.ReadInt16 *)
 Definition tr_ReadInt16 (fuel : nat) (data : Z) (tag : Z) (require : bool) (rd : go_reader) : ctl unit (go_reader * Z * bool) :=
   go_call (tr_SkipToNoCheck fuel tag require rd) (fun r__ => let '(rd, have, ty, err) := r__ in
-    bindc (if (negb (Bool.eqb err false))
-      then Return (rd, data, err)
-      else Next rd)
+    bindc (if (Bool.eqb err false)
+      then Next rd
+      else Return (rd, data, err))
     (fun rd : go_reader =>
-    bindc (if (negb have)
-      then Return (rd, data, false)
-      else Next rd)
+    bindc (if have
+      then Next rd
+      else Return (rd, data, false))
     (fun rd : go_reader =>
     let tag__1 := ty in
     bindc (if (tag__1 =? 12) then let data := 0 in
@@ -636,23 +641,23 @@ Definition tr_ReadInt16 (fuel : nat) (data : Z) (tag : Z) (require : bool) (rd :
         Next (rd, data, err)
       else (Return (rd, data, true)))))
     (fun st : go_reader * Z * bool => let '(rd, data, err) := st in
-    bindc (if (negb (Bool.eqb err false))
-      then let err := true in
-        Next (rd, err)
-      else Next (rd, err))
+    bindc (if (Bool.eqb err false)
+      then Next (rd, err)
+      else let err := true in
+        Next (rd, err))
     (fun st : go_reader * bool => let '(rd, err) := st in
     Return (rd, data, err)))))).
 
 (* tars/protocol/codec/codec.go: func Reader.ReadInt64 *)
 Definition tr_ReadInt64 (fuel : nat) (data : Z) (tag : Z) (require : bool) (rd : go_reader) : ctl unit (go_reader * Z * bool) :=
   go_call (tr_SkipToNoCheck fuel tag require rd) (fun r__ => let '(rd, have, ty, err) := r__ in
-    bindc (if (negb (Bool.eqb err false))
-      then Return (rd, data, err)
-      else Next rd)
+    bindc (if (Bool.eqb err false)
+      then Next rd
+      else Return (rd, data, err))
     (fun rd : go_reader =>
-    bindc (if (negb have)
-      then Return (rd, data, false)
-      else Next rd)
+    bindc (if have
+      then Next rd
+      else Return (rd, data, false))
     (fun rd : go_reader =>
     let tag__1 := ty in
     bindc (if (tag__1 =? 12) then let data := 0 in
@@ -675,10 +680,10 @@ Definition tr_ReadInt64 (fuel : nat) (data : Z) (tag : Z) (require : bool) (rd :
         Next (rd, data, err)
       else (Return (rd, data, true)))))))
     (fun st : go_reader * Z * bool => let '(rd, data, err) := st in
-    bindc (if (negb (Bool.eqb err false))
-      then let err := true in
-        Next (rd, err)
-      else Next (rd, err))
+    bindc (if (Bool.eqb err false)
+      then Next (rd, err)
+      else let err := true in
+        Next (rd, err))
     (fun st : go_reader * bool => let '(rd, err) := st in
     Return (rd, data, err)))))).
 
@@ -712,9 +717,9 @@ Definition tr_ReadBool (fuel : nat) (data : bool) (tag : Z) (require : bool) (rd
       else Next (rd, tmp))
     (fun st : go_reader * Z => let '(rd, tmp) := st in
     go_call (tr_ReadInt8 fuel tmp tag require rd) (fun r__ => let '(rd, tmp, err) := r__ in
-    bindc (if (negb (Bool.eqb err false))
-      then Return (rd, data, err)
-      else Next rd)
+    bindc (if (Bool.eqb err false)
+      then Next rd
+      else Return (rd, data, err))
     (fun rd : go_reader =>
     bindc (if (tmp =? 0)
       then let data := false in
@@ -727,20 +732,20 @@ Definition tr_ReadBool (fuel : nat) (data : bool) (tag : Z) (require : bool) (rd
 (* tars/protocol/codec/codec.go: func Reader.ReadString *)
 Definition tr_ReadString (fuel : nat) (data : (list N)) (tag : Z) (require : bool) (rd : go_reader) : ctl unit (go_reader * (list N) * bool) :=
   go_call (tr_SkipToNoCheck fuel tag require rd) (fun r__ => let '(rd, have, ty, err) := r__ in
-    bindc (if (negb (Bool.eqb err false))
-      then Return (rd, data, err)
-      else Next rd)
+    bindc (if (Bool.eqb err false)
+      then Next rd
+      else Return (rd, data, err))
     (fun rd : go_reader =>
-    bindc (if (negb have)
-      then Return (rd, data, false)
-      else Next rd)
+    bindc (if have
+      then Next rd
+      else Return (rd, data, false))
     (fun rd : go_reader =>
     bindc (if (ty =? k_codec_STRING4)
       then let length : Z := 0 in
         let '(rd, length, err) := (go_rd_u32 rd) in
-        bindc (if (negb (Bool.eqb err false))
-          then Return (rd, data, true)
-          else Next rd)
+        bindc (if (Bool.eqb err false)
+          then Next rd
+          else Return (rd, data, true))
         (fun rd : go_reader =>
         bindc (if ((go_rd_len rd) <? length)
           then Return (rd, data, true)
@@ -752,9 +757,9 @@ Definition tr_ReadString (fuel : nat) (data : (list N)) (tag : Z) (require : boo
       else bindc (if (ty =? k_codec_STRING1)
           then let length_1 : Z := 0 in
             let '(rd, length_1, err) := (go_rd_u8 rd) in
-            bindc (if (negb (Bool.eqb err false))
-              then Return (rd, data, true)
-              else Next rd)
+            bindc (if (Bool.eqb err false)
+              then Next rd
+              else Return (rd, data, true))
             (fun rd : go_reader =>
             bindc (if ((go_rd_len rd) <? length_1)
               then Return (rd, data, true)
@@ -772,13 +777,13 @@ Definition tr_ReadString (fuel : nat) (data : (list N)) (tag : Z) (require : boo
 (* tars/protocol/codec/codec.go: func Reader.ReadFloat32 *)
 Definition tr_ReadFloat32 (fuel : nat) (data : Z) (tag : Z) (require : bool) (rd : go_reader) : ctl unit (go_reader * Z * bool) :=
   go_call (tr_SkipToNoCheck fuel tag require rd) (fun r__ => let '(rd, have, ty, err) := r__ in
-    bindc (if (negb (Bool.eqb err false))
-      then Return (rd, data, err)
-      else Next rd)
+    bindc (if (Bool.eqb err false)
+      then Next rd
+      else Return (rd, data, err))
     (fun rd : go_reader =>
-    bindc (if (negb have)
-      then Return (rd, data, false)
-      else Next rd)
+    bindc (if have
+      then Next rd
+      else Return (rd, data, false))
     (fun rd : go_reader =>
     let tag__1 := ty in
     bindc (if (tag__1 =? 12) then let data := 0 in
@@ -789,23 +794,23 @@ Definition tr_ReadFloat32 (fuel : nat) (data : Z) (tag : Z) (require : bool) (rd
         Next (rd, data, err)
       else (Return (rd, data, true))))
     (fun st : go_reader * Z * bool => let '(rd, data, err) := st in
-    bindc (if (negb (Bool.eqb err false))
-      then let err := true in
-        Next (rd, err)
-      else Next (rd, err))
+    bindc (if (Bool.eqb err false)
+      then Next (rd, err)
+      else let err := true in
+        Next (rd, err))
     (fun st : go_reader * bool => let '(rd, err) := st in
     Return (rd, data, err)))))).
 
 (* tars/protocol/codec/codec.go: func Reader.ReadFloat64 *)
 Definition tr_ReadFloat64 (fuel : nat) (data : Z) (tag : Z) (require : bool) (rd : go_reader) : ctl unit (go_reader * Z * bool) :=
   go_call (tr_SkipToNoCheck fuel tag require rd) (fun r__ => let '(rd, have, ty, err) := r__ in
-    bindc (if (negb (Bool.eqb err false))
-      then Return (rd, data, err)
-      else Next rd)
+    bindc (if (Bool.eqb err false)
+      then Next rd
+      else Return (rd, data, err))
     (fun rd : go_reader =>
-    bindc (if (negb have)
-      then Return (rd, data, false)
-      else Next rd)
+    bindc (if have
+      then Next rd
+      else Return (rd, data, false))
     (fun rd : go_reader =>
     let tag__1 := ty in
     bindc (if (tag__1 =? 12) then let data := 0 in
@@ -820,10 +825,10 @@ Definition tr_ReadFloat64 (fuel : nat) (data : Z) (tag : Z) (require : bool) (rd
         Next (rd, data, err)
       else (Return (rd, data, true)))))
     (fun st : go_reader * Z * bool => let '(rd, data, err) := st in
-    bindc (if (negb (Bool.eqb err false))
-      then let err := true in
-        Next (rd, err)
-      else Next (rd, err))
+    bindc (if (Bool.eqb err false)
+      then Next (rd, err)
+      else let err := true in
+        Next (rd, err))
     (fun st : go_reader * bool => let '(rd, err) := st in
     Return (rd, data, err)))))).
 
@@ -839,10 +844,10 @@ Definition tr_ReadSliceUint8 (data : (list N)) (len : Z) (require : bool) (rd : 
       else Next rd)
     (fun rd : go_reader =>
     let '(rd, data, _, err) := (go_rd_read data rd) in
-    bindc (if (negb (Bool.eqb err false))
-      then let err := true in
-        Next (rd, err)
-      else Next (rd, err))
+    bindc (if (Bool.eqb err false)
+      then Next (rd, err)
+      else let err := true in
+        Next (rd, err))
     (fun st : go_reader * bool => let '(rd, err) := st in
     Return (rd, data, err)))) else Panic).
 
@@ -865,9 +870,9 @@ Definition tr_genRequestID_cas (maxInt32 : Z) (rd : Z) : ctl Z (Z * Z) :=
 Fixpoint tr_genRequestID_loop (fuel : nat) (rd : Z) {struct fuel} : ctl Z (Z * Z) :=
   match fuel with O => Panic | S fuel =>
   go_iter (let '(rd, v) := (go_atomic_add32 1 rd) in
-      bindc (if (negb (v =? 0))
-        then Return (inr (rd, v))
-        else Next rd)
+      bindc (if (v =? 0)
+        then Next rd
+        else Return (inr (rd, v)))
       (fun rd : Z =>
       Next rd))
     (fun rd : Z =>
@@ -880,12 +885,12 @@ Definition tr_rr_Select (r_endpoints : (list go_endpoint_Endpoint)) (r_lastPosit
   let ep : go_endpoint_Endpoint := (Build_go_endpoint_Endpoint (@nil N) 0 0 0 0 0 0 0 0 (@nil N) (@nil N) (@nil N) (@nil N) (@nil N)) in
     if ((go_len r_endpoints) =? 0)
     then Return (ep, true, r_lastPosition, r_lastStaticWeightPosition)
-    else if (negb ((go_len r_staticWeightRouterCache) =? 0))
-    then let r_lastStaticWeightPosition := (wrapU 64 (r_lastStaticWeightPosition + 1)) in let idx_1 := r_lastStaticWeightPosition in
-      if (andb (andb (negb ((wrapU 64 (go_len r_staticWeightRouterCache)) =? 0)) (go_in_range r_staticWeightRouterCache (Z.rem idx_1 (wrapU 64 (go_len r_staticWeightRouterCache))))) (go_in_range r_endpoints (go_nth r_staticWeightRouterCache (Z.rem idx_1 (wrapU 64 (go_len r_staticWeightRouterCache))) 0))) then (Return ((go_nth r_endpoints (go_nth r_staticWeightRouterCache (Z.rem idx_1 (wrapU 64 (go_len r_staticWeightRouterCache))) 0) (Build_go_endpoint_Endpoint (@nil N) 0 0 0 0 0 0 0 0 (@nil N) (@nil N) (@nil N) (@nil N) (@nil N))), false, r_lastPosition, r_lastStaticWeightPosition)) else Panic
-    else let r_lastPosition := (wrapU 64 (r_lastPosition + 1)) in let idx := r_lastPosition in
+    else if ((go_len r_staticWeightRouterCache) =? 0)
+    then let r_lastPosition := (wrapU 64 (r_lastPosition + 1)) in let idx := r_lastPosition in
     if (andb (negb ((wrapU 64 (go_len r_endpoints)) =? 0)) (go_in_range r_endpoints (Z.rem idx (wrapU 64 (go_len r_endpoints))))) then (let ep := (go_nth r_endpoints (Z.rem idx (wrapU 64 (go_len r_endpoints))) (Build_go_endpoint_Endpoint (@nil N) 0 0 0 0 0 0 0 0 (@nil N) (@nil N) (@nil N) (@nil N) (@nil N))) in
-    Return (ep, false, r_lastPosition, r_lastStaticWeightPosition)) else Panic.
+    Return (ep, false, r_lastPosition, r_lastStaticWeightPosition)) else Panic
+    else let r_lastStaticWeightPosition := (wrapU 64 (r_lastStaticWeightPosition + 1)) in let idx_1 := r_lastStaticWeightPosition in
+      if (andb (andb (negb ((wrapU 64 (go_len r_staticWeightRouterCache)) =? 0)) (go_in_range r_staticWeightRouterCache (Z.rem idx_1 (wrapU 64 (go_len r_staticWeightRouterCache))))) (go_in_range r_endpoints (go_nth r_staticWeightRouterCache (Z.rem idx_1 (wrapU 64 (go_len r_staticWeightRouterCache))) 0))) then (Return ((go_nth r_endpoints (go_nth r_staticWeightRouterCache (Z.rem idx_1 (wrapU 64 (go_len r_staticWeightRouterCache))) 0) (Build_go_endpoint_Endpoint (@nil N) 0 0 0 0 0 0 0 0 (@nil N) (@nil N) (@nil N) (@nil N) (@nil N))), false, r_lastPosition, r_lastStaticWeightPosition)) else Panic.
 
 (* tars/selector/modhash/modhash.go: func ModHash.Select *)
 Definition tr_mh_Select (m_endpoints : (list go_endpoint_Endpoint)) (m_staticWeightRouterCache : (list Z)) (hashCode_ : Z) : ctl unit (go_endpoint_Endpoint * bool) :=
@@ -893,20 +898,20 @@ Definition tr_mh_Select (m_endpoints : (list go_endpoint_Endpoint)) (m_staticWei
     if ((go_len m_endpoints) =? 0)
     then Return (ep, true)
     else let hashCode := hashCode_ in
-    if (negb ((go_len m_staticWeightRouterCache) =? 0))
-    then if (andb (negb ((wrapU 32 (go_len m_staticWeightRouterCache)) =? 0)) (go_in_range m_staticWeightRouterCache (Z.rem hashCode (wrapU 32 (go_len m_staticWeightRouterCache))))) then (let idx := (go_nth m_staticWeightRouterCache (Z.rem hashCode (wrapU 32 (go_len m_staticWeightRouterCache))) 0) in
-      if (go_in_range m_endpoints idx) then (Return ((go_nth m_endpoints idx (Build_go_endpoint_Endpoint (@nil N) 0 0 0 0 0 0 0 0 (@nil N) (@nil N) (@nil N) (@nil N) (@nil N))), false)) else Panic) else Panic
-    else if (andb (negb ((wrapU 32 (go_len m_endpoints)) =? 0)) (go_in_range m_endpoints (Z.rem hashCode (wrapU 32 (go_len m_endpoints))))) then (Return ((go_nth m_endpoints (Z.rem hashCode (wrapU 32 (go_len m_endpoints))) (Build_go_endpoint_Endpoint (@nil N) 0 0 0 0 0 0 0 0 (@nil N) (@nil N) (@nil N) (@nil N) (@nil N))), false)) else Panic.
+    if ((go_len m_staticWeightRouterCache) =? 0)
+    then if (andb (negb ((wrapU 32 (go_len m_endpoints)) =? 0)) (go_in_range m_endpoints (Z.rem hashCode (wrapU 32 (go_len m_endpoints))))) then (Return ((go_nth m_endpoints (Z.rem hashCode (wrapU 32 (go_len m_endpoints))) (Build_go_endpoint_Endpoint (@nil N) 0 0 0 0 0 0 0 0 (@nil N) (@nil N) (@nil N) (@nil N) (@nil N))), false)) else Panic
+    else if (andb (negb ((wrapU 32 (go_len m_staticWeightRouterCache)) =? 0)) (go_in_range m_staticWeightRouterCache (Z.rem hashCode (wrapU 32 (go_len m_staticWeightRouterCache))))) then (let idx := (go_nth m_staticWeightRouterCache (Z.rem hashCode (wrapU 32 (go_len m_staticWeightRouterCache))) 0) in
+      if (go_in_range m_endpoints idx) then (Return ((go_nth m_endpoints idx (Build_go_endpoint_Endpoint (@nil N) 0 0 0 0 0 0 0 0 (@nil N) (@nil N) (@nil N) (@nil N) (@nil N))), false)) else Panic) else Panic.
 
 (* tars/selector/random/random.go: func Random.Select *)
 Definition tr_rnd_Select (r_endpoints : (list go_endpoint_Endpoint)) (r_staticWeightRouterCache : (list Z)) (draw_eps : Z) (draw_cache : Z) : ctl unit (go_endpoint_Endpoint * bool) :=
   let ep : go_endpoint_Endpoint := (Build_go_endpoint_Endpoint (@nil N) 0 0 0 0 0 0 0 0 (@nil N) (@nil N) (@nil N) (@nil N) (@nil N)) in
     if ((go_len r_endpoints) =? 0)
     then Return (ep, true)
-    else if (negb ((go_len r_staticWeightRouterCache) =? 0))
-    then if (go_in_range r_staticWeightRouterCache draw_cache) then (let idx := (go_nth r_staticWeightRouterCache draw_cache 0) in
-      if (go_in_range r_endpoints idx) then (Return ((go_nth r_endpoints idx (Build_go_endpoint_Endpoint (@nil N) 0 0 0 0 0 0 0 0 (@nil N) (@nil N) (@nil N) (@nil N) (@nil N))), false)) else Panic) else Panic
-    else if (go_in_range r_endpoints draw_eps) then (Return ((go_nth r_endpoints draw_eps (Build_go_endpoint_Endpoint (@nil N) 0 0 0 0 0 0 0 0 (@nil N) (@nil N) (@nil N) (@nil N) (@nil N))), false)) else Panic.
+    else if ((go_len r_staticWeightRouterCache) =? 0)
+    then if (go_in_range r_endpoints draw_eps) then (Return ((go_nth r_endpoints draw_eps (Build_go_endpoint_Endpoint (@nil N) 0 0 0 0 0 0 0 0 (@nil N) (@nil N) (@nil N) (@nil N) (@nil N))), false)) else Panic
+    else if (go_in_range r_staticWeightRouterCache draw_cache) then (let idx := (go_nth r_staticWeightRouterCache draw_cache 0) in
+      if (go_in_range r_endpoints idx) then (Return ((go_nth r_endpoints idx (Build_go_endpoint_Endpoint (@nil N) 0 0 0 0 0 0 0 0 (@nil N) (@nil N) (@nil N) (@nil N) (@nil N))), false)) else Panic) else Panic.
 
 (* tars/selector/consistenthash/consistenthash_new.go: func ConsistentHash.FindInt32 *)
 Definition tr_ch_FindInt32 (key : Z) (c_hashRing : (list (Z * go_endpoint_Endpoint))) (c_sortedKeys : (list Z)) : ctl unit (go_endpoint_Endpoint * bool) :=
@@ -933,6 +938,278 @@ Definition tr_tw_After_pos (timeout : Z) (tw_t : Z) (tw_maxT : Z) (tw_currPos : 
     (fun pos : Z =>
     if (negb (wheel_size =? 0)) then (let pos := (Z.rem (wrapS 64 (tw_currPos + pos)) wheel_size) in
     Next pos) else Panic)) else Panic.
+
+Definition k_transport_PackageLess : Z := 0.
+Definition k_transport_PackageFull : Z := 1.
+(* tars/transport/tcphandler.go: func tcpHandler.recv, statements "currBuffer = append(currBuffer, buffer[:n]...)" .. "for {" *)
+Definition tr_srv_recv_chunk (fuel : nat) (buffer : (list N)) (currBuffer : (list N)) (n : Z) (parse_package : list N -> Z * Z) (out : list (list N)) : ctl ((list (list N)) * (list N)) (list (list N) * unit) :=
+  if (go_slice_ok buffer 0 n) then (let currBuffer := currBuffer ++ (go_slice buffer 0 n) in
+    bindc (go_loop fuel (fun st : (list (list N)) * (list N) => let '(out, currBuffer) := st in
+      let '(pkgLen, status) := (parse_package currBuffer) in
+      bindc (if (status =? k_transport_PackageLess)
+        then Return (inl (inl (out, currBuffer)))
+        else Next out)
+      (fun out : (list (list N)) =>
+      bindc (if (status =? k_transport_PackageFull)
+        then if (0 <=? pkgLen) then (let pkg := (go_make pkgLen 0%N) in
+          if (go_slice_ok currBuffer 0 pkgLen) then (let pkg := go_copy pkg (go_slice currBuffer 0 pkgLen) in
+          if (go_slice_ok currBuffer pkgLen (go_len currBuffer)) then (let currBuffer := (go_slice currBuffer pkgLen (go_len currBuffer)) in
+          let out := out ++ (go_deliver pkg) in let _ := false in
+          bindc (if (0 <? (go_len currBuffer))
+            then Return (inl (inr (out, currBuffer)))
+            else Next out)
+          (fun out : (list (list N)) =>
+          let currBuffer := (@nil N) in
+          Return (inl (inl (out, currBuffer))))) else Panic) else Panic) else Panic
+        else Next (out, currBuffer))
+      (fun st : (list (list N)) * (list N) => let '(out, currBuffer) := st in
+      Return (inr (out, tt))))) (out, currBuffer))
+    (fun st : (list (list N)) * (list N) => let '(out, currBuffer) := st in
+    Next (out, currBuffer))) else Panic.
+
+(* tars/errors.go: func Error.Error *)
+Definition tr_Error_Error (e_Message : (list N)) : ctl unit (list N) :=
+  Return e_Message.
+
+(* struct github.com/TarsCloud/TarsGo/tars/protocol/res/requestf.ResponsePacket *)
+Record go_requestf_ResponsePacket := { go_requestf_ResponsePacket_IVersion : Z;
+  go_requestf_ResponsePacket_CPacketType : Z;
+  go_requestf_ResponsePacket_IRequestId : Z;
+  go_requestf_ResponsePacket_IMessageType : Z;
+  go_requestf_ResponsePacket_IRet : Z;
+  go_requestf_ResponsePacket_SBuffer : (list Z);
+  go_requestf_ResponsePacket_SResultDesc : (list N) }.
+
+(* tars/tarsprotocol.go: func Protocol.Invoke, statements "rspPackage := requestf.ResponsePacket{}" .. "rspPackage := requestf.ResponsePacket{}" *)
+Definition tr_Invoke_rsp_init  : ctl go_requestf_ResponsePacket (list N) :=
+  let rspPackage := {|
+      go_requestf_ResponsePacket_IVersion := 0;
+      go_requestf_ResponsePacket_CPacketType := 0;
+      go_requestf_ResponsePacket_IRequestId := 0;
+      go_requestf_ResponsePacket_IMessageType := 0;
+      go_requestf_ResponsePacket_IRet := 0;
+      go_requestf_ResponsePacket_SBuffer := (@nil Z);
+      go_requestf_ResponsePacket_SResultDesc := (@nil N) |} in
+    Next rspPackage.
+
+(* tars/tarsprotocol.go: func Protocol.InvokeTimeout, statements "^" .. "rspPackage := requestf.ResponsePacket{}" *)
+Definition tr_InvokeTimeout_rsp_init  : ctl go_requestf_ResponsePacket (list N) :=
+  let rspPackage := {|
+      go_requestf_ResponsePacket_IVersion := 0;
+      go_requestf_ResponsePacket_CPacketType := 0;
+      go_requestf_ResponsePacket_IRequestId := 0;
+      go_requestf_ResponsePacket_IMessageType := 0;
+      go_requestf_ResponsePacket_IRet := 0;
+      go_requestf_ResponsePacket_SBuffer := (@nil Z);
+      go_requestf_ResponsePacket_SResultDesc := (@nil N) |} in
+    Next rspPackage.
+
+(* struct github.com/TarsCloud/TarsGo/tars/protocol/res/requestf.RequestPacket *)
+Record go_requestf_RequestPacket := { go_requestf_RequestPacket_IVersion : Z;
+  go_requestf_RequestPacket_CPacketType : Z;
+  go_requestf_RequestPacket_IMessageType : Z;
+  go_requestf_RequestPacket_IRequestId : Z;
+  go_requestf_RequestPacket_SServantName : (list N);
+  go_requestf_RequestPacket_SFuncName : (list N);
+  go_requestf_RequestPacket_SBuffer : (list Z);
+  go_requestf_RequestPacket_ITimeout : Z }.
+
+(* tars/tarsprotocol.go: func Protocol.Invoke, statements "rspPackage.IVersion = reqPackage.IVersion" .. "rspPackage.IRequestId = reqPackage.IRequestId" *)
+Definition tr_Invoke_identity (reqPackage : go_requestf_RequestPacket) (rspPackage : go_requestf_ResponsePacket) : ctl go_requestf_ResponsePacket (list N) :=
+  let rspPackage := {| go_requestf_ResponsePacket_IVersion := (go_requestf_RequestPacket_IVersion reqPackage); go_requestf_ResponsePacket_CPacketType := go_requestf_ResponsePacket_CPacketType rspPackage; go_requestf_ResponsePacket_IRequestId := go_requestf_ResponsePacket_IRequestId rspPackage; go_requestf_ResponsePacket_IMessageType := go_requestf_ResponsePacket_IMessageType rspPackage; go_requestf_ResponsePacket_IRet := go_requestf_ResponsePacket_IRet rspPackage; go_requestf_ResponsePacket_SBuffer := go_requestf_ResponsePacket_SBuffer rspPackage; go_requestf_ResponsePacket_SResultDesc := go_requestf_ResponsePacket_SResultDesc rspPackage |} in
+    let rspPackage := {| go_requestf_ResponsePacket_IVersion := go_requestf_ResponsePacket_IVersion rspPackage; go_requestf_ResponsePacket_CPacketType := go_requestf_ResponsePacket_CPacketType rspPackage; go_requestf_ResponsePacket_IRequestId := (go_requestf_RequestPacket_IRequestId reqPackage); go_requestf_ResponsePacket_IMessageType := go_requestf_ResponsePacket_IMessageType rspPackage; go_requestf_ResponsePacket_IRet := go_requestf_ResponsePacket_IRet rspPackage; go_requestf_ResponsePacket_SBuffer := go_requestf_ResponsePacket_SBuffer rspPackage; go_requestf_ResponsePacket_SResultDesc := go_requestf_ResponsePacket_SResultDesc rspPackage |} in
+    Next rspPackage.
+
+Definition k_basef_TARSSERVERQUEUETIMEOUT : Z := (-6).
+(* tars/tarsprotocol.go: func Protocol.Invoke, statements "rspPackage.IRet = basef.TARSSERVERQUEUETIMEOUT" .. "rspPackage.SResultDesc = \"server invoke timeout\"" *)
+Definition tr_Invoke_queue_timeout (rspPackage : go_requestf_ResponsePacket) : ctl go_requestf_ResponsePacket (list N) :=
+  let rspPackage := {| go_requestf_ResponsePacket_IVersion := go_requestf_ResponsePacket_IVersion rspPackage; go_requestf_ResponsePacket_CPacketType := go_requestf_ResponsePacket_CPacketType rspPackage; go_requestf_ResponsePacket_IRequestId := go_requestf_ResponsePacket_IRequestId rspPackage; go_requestf_ResponsePacket_IMessageType := go_requestf_ResponsePacket_IMessageType rspPackage; go_requestf_ResponsePacket_IRet := k_basef_TARSSERVERQUEUETIMEOUT; go_requestf_ResponsePacket_SBuffer := go_requestf_ResponsePacket_SBuffer rspPackage; go_requestf_ResponsePacket_SResultDesc := go_requestf_ResponsePacket_SResultDesc rspPackage |} in
+    let rspPackage := {| go_requestf_ResponsePacket_IVersion := go_requestf_ResponsePacket_IVersion rspPackage; go_requestf_ResponsePacket_CPacketType := go_requestf_ResponsePacket_CPacketType rspPackage; go_requestf_ResponsePacket_IRequestId := go_requestf_ResponsePacket_IRequestId rspPackage; go_requestf_ResponsePacket_IMessageType := go_requestf_ResponsePacket_IMessageType rspPackage; go_requestf_ResponsePacket_IRet := go_requestf_ResponsePacket_IRet rspPackage; go_requestf_ResponsePacket_SBuffer := go_requestf_ResponsePacket_SBuffer rspPackage; go_requestf_ResponsePacket_SResultDesc := (115%N :: (101%N :: (114%N :: (118%N :: (101%N :: (114%N :: (32%N :: (105%N :: (110%N :: (118%N :: (111%N :: (107%N :: (101%N :: (32%N :: (116%N :: (105%N :: (109%N :: (101%N :: (111%N :: (117%N :: (116%N :: (@nil N)))))))))))))))))))))) |} in
+    Next rspPackage.
+
+(* tars/tarsprotocol.go: func Protocol.Invoke, statements "rspPackage.IRet = 1" .. "if tarsErr, ok := err.(*Error); ok {" *)
+Definition tr_Invoke_error (rspPackage : go_requestf_ResponsePacket) (err_is_tars : bool) (err_text : list N) (err_code : Z) : ctl go_requestf_ResponsePacket (list N) :=
+  let rspPackage := {| go_requestf_ResponsePacket_IVersion := go_requestf_ResponsePacket_IVersion rspPackage; go_requestf_ResponsePacket_CPacketType := go_requestf_ResponsePacket_CPacketType rspPackage; go_requestf_ResponsePacket_IRequestId := go_requestf_ResponsePacket_IRequestId rspPackage; go_requestf_ResponsePacket_IMessageType := go_requestf_ResponsePacket_IMessageType rspPackage; go_requestf_ResponsePacket_IRet := 1; go_requestf_ResponsePacket_SBuffer := go_requestf_ResponsePacket_SBuffer rspPackage; go_requestf_ResponsePacket_SResultDesc := go_requestf_ResponsePacket_SResultDesc rspPackage |} in
+    let rspPackage := {| go_requestf_ResponsePacket_IVersion := go_requestf_ResponsePacket_IVersion rspPackage; go_requestf_ResponsePacket_CPacketType := go_requestf_ResponsePacket_CPacketType rspPackage; go_requestf_ResponsePacket_IRequestId := go_requestf_ResponsePacket_IRequestId rspPackage; go_requestf_ResponsePacket_IMessageType := go_requestf_ResponsePacket_IMessageType rspPackage; go_requestf_ResponsePacket_IRet := go_requestf_ResponsePacket_IRet rspPackage; go_requestf_ResponsePacket_SBuffer := go_requestf_ResponsePacket_SBuffer rspPackage; go_requestf_ResponsePacket_SResultDesc := err_text |} in
+    let ok := err_is_tars in
+    bindc (if ok
+      then let rspPackage := {| go_requestf_ResponsePacket_IVersion := go_requestf_ResponsePacket_IVersion rspPackage; go_requestf_ResponsePacket_CPacketType := go_requestf_ResponsePacket_CPacketType rspPackage; go_requestf_ResponsePacket_IRequestId := go_requestf_ResponsePacket_IRequestId rspPackage; go_requestf_ResponsePacket_IMessageType := go_requestf_ResponsePacket_IMessageType rspPackage; go_requestf_ResponsePacket_IRet := err_code; go_requestf_ResponsePacket_SBuffer := go_requestf_ResponsePacket_SBuffer rspPackage; go_requestf_ResponsePacket_SResultDesc := go_requestf_ResponsePacket_SResultDesc rspPackage |} in
+        Next rspPackage
+      else Next rspPackage)
+    (fun rspPackage : go_requestf_ResponsePacket =>
+    Next rspPackage).
+
+(* tars/tarsprotocol.go: func Protocol.Invoke, statements "rspPackage.CPacketType = reqPackage.CPacketType" .. "rspPackage.CPacketType = reqPackage.CPacketType" *)
+Definition tr_Invoke_ptype (reqPackage : go_requestf_RequestPacket) (rspPackage : go_requestf_ResponsePacket) : ctl go_requestf_ResponsePacket (list N) :=
+  let rspPackage := {| go_requestf_ResponsePacket_IVersion := go_requestf_ResponsePacket_IVersion rspPackage; go_requestf_ResponsePacket_CPacketType := (go_requestf_RequestPacket_CPacketType reqPackage); go_requestf_ResponsePacket_IRequestId := go_requestf_ResponsePacket_IRequestId rspPackage; go_requestf_ResponsePacket_IMessageType := go_requestf_ResponsePacket_IMessageType rspPackage; go_requestf_ResponsePacket_IRet := go_requestf_ResponsePacket_IRet rspPackage; go_requestf_ResponsePacket_SBuffer := go_requestf_ResponsePacket_SBuffer rspPackage; go_requestf_ResponsePacket_SResultDesc := go_requestf_ResponsePacket_SResultDesc rspPackage |} in
+    Next rspPackage.
+
+Definition k_basef_TARSONEWAY : Z := 1.
+(* tars/tarsprotocol.go: func Protocol.InvokeTimeout, statements "if reqPackage.CPacketType == basef.TARSONEWAY {" .. "rspPackage.SResultDesc = \"server invoke timeout\"" *)
+Definition tr_InvokeTimeout_fill (rspPackage : go_requestf_ResponsePacket) (reqPackage : go_requestf_RequestPacket) : ctl go_requestf_ResponsePacket (list N) :=
+  if ((go_requestf_RequestPacket_CPacketType reqPackage) =? k_basef_TARSONEWAY)
+    then Return (@nil N)
+    else let rspPackage := {| go_requestf_ResponsePacket_IVersion := (go_requestf_RequestPacket_IVersion reqPackage); go_requestf_ResponsePacket_CPacketType := go_requestf_ResponsePacket_CPacketType rspPackage; go_requestf_ResponsePacket_IRequestId := go_requestf_ResponsePacket_IRequestId rspPackage; go_requestf_ResponsePacket_IMessageType := go_requestf_ResponsePacket_IMessageType rspPackage; go_requestf_ResponsePacket_IRet := go_requestf_ResponsePacket_IRet rspPackage; go_requestf_ResponsePacket_SBuffer := go_requestf_ResponsePacket_SBuffer rspPackage; go_requestf_ResponsePacket_SResultDesc := go_requestf_ResponsePacket_SResultDesc rspPackage |} in
+    let rspPackage := {| go_requestf_ResponsePacket_IVersion := go_requestf_ResponsePacket_IVersion rspPackage; go_requestf_ResponsePacket_CPacketType := (go_requestf_RequestPacket_CPacketType reqPackage); go_requestf_ResponsePacket_IRequestId := go_requestf_ResponsePacket_IRequestId rspPackage; go_requestf_ResponsePacket_IMessageType := go_requestf_ResponsePacket_IMessageType rspPackage; go_requestf_ResponsePacket_IRet := go_requestf_ResponsePacket_IRet rspPackage; go_requestf_ResponsePacket_SBuffer := go_requestf_ResponsePacket_SBuffer rspPackage; go_requestf_ResponsePacket_SResultDesc := go_requestf_ResponsePacket_SResultDesc rspPackage |} in
+    let rspPackage := {| go_requestf_ResponsePacket_IVersion := go_requestf_ResponsePacket_IVersion rspPackage; go_requestf_ResponsePacket_CPacketType := go_requestf_ResponsePacket_CPacketType rspPackage; go_requestf_ResponsePacket_IRequestId := (go_requestf_RequestPacket_IRequestId reqPackage); go_requestf_ResponsePacket_IMessageType := go_requestf_ResponsePacket_IMessageType rspPackage; go_requestf_ResponsePacket_IRet := go_requestf_ResponsePacket_IRet rspPackage; go_requestf_ResponsePacket_SBuffer := go_requestf_ResponsePacket_SBuffer rspPackage; go_requestf_ResponsePacket_SResultDesc := go_requestf_ResponsePacket_SResultDesc rspPackage |} in
+    let rspPackage := {| go_requestf_ResponsePacket_IVersion := go_requestf_ResponsePacket_IVersion rspPackage; go_requestf_ResponsePacket_CPacketType := go_requestf_ResponsePacket_CPacketType rspPackage; go_requestf_ResponsePacket_IRequestId := go_requestf_ResponsePacket_IRequestId rspPackage; go_requestf_ResponsePacket_IMessageType := go_requestf_ResponsePacket_IMessageType rspPackage; go_requestf_ResponsePacket_IRet := 1; go_requestf_ResponsePacket_SBuffer := go_requestf_ResponsePacket_SBuffer rspPackage; go_requestf_ResponsePacket_SResultDesc := go_requestf_ResponsePacket_SResultDesc rspPackage |} in
+    let rspPackage := {| go_requestf_ResponsePacket_IVersion := go_requestf_ResponsePacket_IVersion rspPackage; go_requestf_ResponsePacket_CPacketType := go_requestf_ResponsePacket_CPacketType rspPackage; go_requestf_ResponsePacket_IRequestId := go_requestf_ResponsePacket_IRequestId rspPackage; go_requestf_ResponsePacket_IMessageType := go_requestf_ResponsePacket_IMessageType rspPackage; go_requestf_ResponsePacket_IRet := go_requestf_ResponsePacket_IRet rspPackage; go_requestf_ResponsePacket_SBuffer := go_requestf_ResponsePacket_SBuffer rspPackage; go_requestf_ResponsePacket_SResultDesc := (115%N :: (101%N :: (114%N :: (118%N :: (101%N :: (114%N :: (32%N :: (105%N :: (110%N :: (118%N :: (111%N :: (107%N :: (101%N :: (32%N :: (116%N :: (105%N :: (109%N :: (101%N :: (111%N :: (117%N :: (116%N :: (@nil N)))))))))))))))))))))) |} in
+    Next rspPackage.
+
+(* tars/errors.go: func GetErrorCode *)
+Definition tr_GetErrorCode (err : bool) (err_code : Z) (err_is_tars : bool) : ctl unit Z :=
+  if (Bool.eqb err false)
+    then Return 0
+    else let ok := err_is_tars in
+    if ok
+    then Return err_code
+    else Return 1.
+
+Definition k_basef_TARSSERVERSUCCESS : Z := 0.
+(* struct github.com/TarsCloud/TarsGo/tars.Error *)
+Record go_tars_Error := { go_tars_Error_Code : Z;
+  go_tars_Error_Message : (list N) }.
+
+(* tars/servant.go: func ServantProxy.doInvoke, statements "if msg.Status != basef.TARSSERVERSUCCESS || msg.Resp.IRet != 0 {" .. "if msg.Status != basef.TARSSERVERSUCCESS || msg.Resp.IRet != 0 {" *)
+Definition tr_doInvoke_reply (rsp_ret : Z) (rsp_desc : list N) (msg_status : Z) (sprintf_ : list N -> Z -> list N) : ctl unit (go_error go_tars_Error) :=
+  if (if (negb (msg_status =? k_basef_TARSSERVERSUCCESS)) then true else (negb (rsp_ret =? 0)))
+    then let desc := rsp_desc in
+      bindc (if (go_bytes_eqb desc (@nil N))
+        then let desc := (sprintf_ (98%N :: (97%N :: (115%N :: (101%N :: (102%N :: (32%N :: (101%N :: (114%N :: (114%N :: (111%N :: (114%N :: (32%N :: (99%N :: (111%N :: (100%N :: (101%N :: (32%N :: (37%N :: (100%N :: (@nil N)))))))))))))))))))) rsp_ret) in
+          Next desc
+        else Next desc)
+      (fun desc : (list N) =>
+      if (if (negb (rsp_ret =? 0)) then (negb (rsp_ret =? 1)) else false)
+      then Return (GoErrVal {|
+      go_tars_Error_Code := rsp_ret;
+      go_tars_Error_Message := desc |})
+      else Return (@GoErrNew go_tars_Error desc))
+    else Next tt.
+
+Definition k_codec_MAP : Z := 8.
+(* tars/protocol/tup/tup.go: func UniAttribute.Encode, statements "^" .. "err = os.WriteInt32(int32(len(u.data)), 0)" *)
+Definition tr_tup_Encode_head (count : Z) (out : list N) : ctl ((list N) * bool) (list N * bool) :=
+  go_call (tr_WriteHead k_codec_MAP 0 out) (fun r__ => let '(out, err) := r__ in
+    bindc (if (Bool.eqb err false)
+      then Next out
+      else Return (out, err))
+    (fun out : (list N) =>
+    go_call (tr_WriteInt32 (wrapS 32 count) 0 out) (fun r__ => let '(out, err) := r__ in
+    Next (out, err)))).
+
+Definition k_codec_SimpleList : Z := 13.
+(* tars/protocol/tup/tup.go: func UniAttribute.Encode, statements "err = os.WriteString(k, 0)" .. "err = os.WriteBytes(v)" *)
+Definition tr_tup_Encode_entry (err : bool) (k : (list N)) (v : (list N)) (out : list N) : ctl ((list N) * bool) (list N * bool) :=
+  go_call (tr_WriteString k 0 out) (fun r__ => let '(out, err) := r__ in
+    bindc (if (Bool.eqb err false)
+      then Next out
+      else Return (out, err))
+    (fun out : (list N) =>
+    go_call (tr_WriteHead k_codec_SimpleList 1 out) (fun r__ => let '(out, err) := r__ in
+    bindc (if (Bool.eqb err false)
+      then Next out
+      else Return (out, err))
+    (fun out : (list N) =>
+    go_call (tr_WriteHead k_codec_BYTE 0 out) (fun r__ => let '(out, err) := r__ in
+    bindc (if (Bool.eqb err false)
+      then Next out
+      else Return (out, err))
+    (fun out : (list N) =>
+    go_call (tr_WriteInt32 (wrapS 32 (go_len v)) 0 out) (fun r__ => let '(out, err) := r__ in
+    bindc (if (Bool.eqb err false)
+      then Next out
+      else Return (out, err))
+    (fun out : (list N) =>
+    go_call (tr_WriteBytes v out) (fun r__ => let '(out, err) := r__ in
+    Next (out, err)))))))))).
+
+(* tars/protocol/tup/tup.go: func UniAttribute.Decode *)
+Definition tr_tup_Decode (fuel : nat) (rd : go_reader) (u_data : (list ((list N) * (list N)))) : ctl unit (go_reader * bool * (list ((list N) * (list N)))) :=
+  let have : bool := false in let ty : Z := 0 in let err : bool := false in
+    go_call (tr_SkipTo fuel k_codec_MAP 0 true rd) (fun r__ => let '(rd, _, err) := r__ in
+    bindc (if (Bool.eqb err false)
+      then Next rd
+      else Return (rd, err, u_data))
+    (fun rd : go_reader =>
+    let length : Z := 0 in
+    go_call (tr_ReadInt32 fuel length 0 true rd) (fun r__ => let '(rd, length, err) := r__ in
+    bindc (if (Bool.eqb err false)
+      then Next rd
+      else Return (rd, err, u_data))
+    (fun rd : go_reader =>
+    let e := length in
+    bindc (go_count 0 e (fun (i : Z) => fun st : go_reader * (list ((list N) * (list N))) * bool * Z * bool => let '(rd, u_data, have, ty, err) := st in
+      let k : (list N) := (@nil N) in
+      let v : (list N) := (@nil N) in
+      go_call (tr_ReadString fuel k 0 true rd) (fun r__ => let '(rd, k, err) := r__ in
+      bindc (if (Bool.eqb err false)
+        then Next rd
+        else Return (rd, err, u_data))
+      (fun rd : go_reader =>
+      go_call (tr_SkipToNoCheck fuel 1 true rd) (fun r__ => let '(rd, have, ty, err) := r__ in
+      bindc (if (Bool.eqb err false)
+        then Next rd
+        else Return (rd, err, u_data))
+      (fun rd : go_reader =>
+      bindc (if have
+        then bindc (if (ty =? k_codec_SimpleList)
+            then go_call (tr_SkipTo fuel k_codec_BYTE 0 true rd) (fun r__ => let '(rd, _, err) := r__ in
+              bindc (if (Bool.eqb err false)
+                then Next rd
+                else Return (rd, err, u_data))
+              (fun rd : go_reader =>
+              let byteLen : Z := 0 in
+              go_call (tr_ReadInt32 fuel byteLen 0 true rd) (fun r__ => let '(rd, byteLen, err) := r__ in
+              bindc (if (Bool.eqb err false)
+                then Next rd
+                else Return (rd, err, u_data))
+              (fun rd : go_reader =>
+              go_call (tr_ReadBytes v byteLen true rd) (fun r__ => let '(rd, v, err) := r__ in
+              bindc (if (Bool.eqb err false)
+                then Next rd
+                else Return (rd, err, u_data))
+              (fun rd : go_reader =>
+              let u_data := (go_smap_put u_data k v) in
+              Next (rd, u_data, err)))))))
+            else let err := true in
+              bindc (if (Bool.eqb err false)
+                then Next rd
+                else Return (rd, err, u_data))
+              (fun rd : go_reader =>
+              Next (rd, u_data, err)))
+          (fun st : go_reader * (list ((list N) * (list N))) * bool => let '(rd, u_data, err) := st in
+          Next (rd, u_data, err))
+        else Next (rd, u_data, err))
+      (fun st : go_reader * (list ((list N) * (list N))) * bool => let '(rd, u_data, err) := st in
+      Next (rd, u_data, have, ty, err))))))) (rd, u_data, have, ty, err))
+    (fun st : go_reader * (list ((list N) * (list N))) * bool * Z * bool => let '(rd, u_data, have, ty, err) := st in
+    Return (rd, err, u_data)))))).
+
+(* tars/transport/tarsclient.go: func connection.recv, statements "currBuffer = append(currBuffer, buffer[:n]...)" .. "for {" *)
+Definition tr_cli_recv_chunk (fuel : nat) (buffer : (list N)) (currBuffer : (list N)) (n : Z) (parse_package : list N -> Z * Z) (out : list (list N)) : ctl ((list (list N)) * (list N)) (list (list N) * unit) :=
+  if (go_slice_ok buffer 0 n) then (let currBuffer := currBuffer ++ (go_slice buffer 0 n) in
+    bindc (go_loop fuel (fun st : (list (list N)) * (list N) => let '(out, currBuffer) := st in
+      let '(pkgLen, status) := (parse_package currBuffer) in
+      bindc (if (status =? k_transport_PackageLess)
+        then Return (inl (inl (out, currBuffer)))
+        else Next out)
+      (fun out : (list (list N)) =>
+      bindc (if (status =? k_transport_PackageFull)
+        then if (0 <=? pkgLen) then (let pkg := (go_make pkgLen 0%N) in
+          if (go_slice_ok currBuffer 0 pkgLen) then (let pkg := go_copy pkg (go_slice currBuffer 0 pkgLen) in
+          if (go_slice_ok currBuffer pkgLen (go_len currBuffer)) then (let currBuffer := (go_slice currBuffer pkgLen (go_len currBuffer)) in
+          let out := out ++ (go_deliver pkg) in let _ := false in
+          bindc (if (0 <? (go_len currBuffer))
+            then Return (inl (inr (out, currBuffer)))
+            else Next out)
+          (fun out : (list (list N)) =>
+          let currBuffer := (@nil N) in
+          Return (inl (inl (out, currBuffer))))) else Panic) else Panic) else Panic
+        else Next (out, currBuffer))
+      (fun st : (list (list N)) * (list N) => let '(out, currBuffer) := st in
+      Return (inr (out, tt))))) (out, currBuffer))
+    (fun st : (list (list N)) * (list N) => let '(out, currBuffer) := st in
+    Next (out, currBuffer))) else Panic.
 
 (* struct github.com/TarsCloud/TarsGo/tars/protocol/res/endpointf.EndpointF *)
 Record go_endpointf_EndpointF := { go_endpointf_EndpointF_Host : (list N);
@@ -1025,9 +1302,9 @@ Definition tr_checkActive (c_failCount : Z) (c_lastFailCount : Z) (c_status : bo
     bindc (if (k_tars_tryTimeInterval <=? (wrapS 64 (now - c_lastBlockTime)))
       then let c_lastBlockTime := now in
         let err := reconnect_err in
-        if (negb (Bool.eqb err false))
-        then Return (false, false, c_status, c_lastBlockTime)
-        else Return (false, true, c_status, c_lastBlockTime)
+        if (Bool.eqb err false)
+        then Return (false, true, c_status, c_lastBlockTime)
+        else Return (false, false, c_status, c_lastBlockTime)
       else Next c_lastBlockTime)
     (fun c_lastBlockTime : Z =>
     Return (false, false, c_status, c_lastBlockTime))).
@@ -1103,7 +1380,7 @@ Definition tr_Parse_build (proto : (list N)) (host : (list N)) (bind : (list N))
         (fun st : (list N) * Z => let '(proto, isTcp) := st in
         Next (proto, isTcp)))
     (fun st : (list N) * Z => let '(proto, isTcp) := st in
-    bindc (if (if (negb (weightType =? 0)) then (if (weight =? (-1)) then true else (100 <? weight)) else false)
+    bindc (if (if (if (100 <? weight) then true else (weight =? (-1))) then (negb (weightType =? 0)) else false)
       then let weight := 100 in
         Next weight
       else Next weight)
